@@ -6,6 +6,9 @@ package vx
 import (
 	"crypto/sha256"
 	"fmt"
+	"os"
+	"runtime"
+	"strconv"
 	"strings"
 	"sync"
 )
@@ -104,6 +107,22 @@ func (c *Chooser) Labels() []string {
 	return out
 }
 
+// memExceeded: the heap of this worker process is above VERIF_MEMLIMIT_MB (default 4096).
+// Code under test may leak per execution (gocoro.Add starts a goroutine for a coroutine
+// that the full scheduler then refuses; it is never resumed); an exploration of millions
+// of executions stops as "capped" instead of taking the machine down.
+func memExceeded() bool {
+	limit := uint64(4096)
+	if v := os.Getenv("VERIF_MEMLIMIT_MB"); v != "" {
+		if n, err := strconv.ParseUint(v, 10, 64); err == nil && n > 0 {
+			limit = n
+		}
+	}
+	var ms runtime.MemStats
+	runtime.ReadMemStats(&ms)
+	return ms.HeapAlloc>>20 > limit
+}
+
 type key [16]byte
 
 func hash(s string) key {
@@ -120,6 +139,7 @@ type Stats struct {
 	Cut         int64 // runs cut at a visited state
 	MaxDepth    int
 	Capped      bool // a cap (executions) was hit: not exhaustive
+	MemStop     bool // the cap was the memory limit of the worker process
 }
 
 type Explorer struct {
@@ -182,7 +202,10 @@ func (e *Explorer) Explore(run func(*Chooser) bool) {
 					e.mu.Unlock()
 					return
 				}
-				if (e.MaxExec > 0 && e.Stats.Executions >= e.MaxExec) || (e.Stop != nil && e.Stop()) {
+				if e.Stats.Executions%512 == 511 && memExceeded() {
+					e.Stats.MemStop = true
+				}
+				if e.Stats.MemStop || (e.MaxExec > 0 && e.Stats.Executions >= e.MaxExec) || (e.Stop != nil && e.Stop()) {
 					e.Stats.Capped = true
 					abort = true
 					cond.Broadcast()
